@@ -695,6 +695,8 @@ def run(ctx):
     translate.r_evalshape(ctx)    # every term of a combination is evaluated (through its accessor), whatever its coefficient: an unsolved leaf always raises
     r_none(ctx)
     solveprog.r_solve_program(ctx, {"none", "options"})
+    from . import mosekprog
+    mosekprog.r_solver_choice(ctx)   # a solver named by the user reaches cvxpy unchanged (cvxpy rejects unknown names)
     no = r_options(ctx)
     wrappers.r_constraint_kinds(ctx)
     ctx.floor("except clauses", ne, 2)
